@@ -1513,5 +1513,33 @@ theorem inCall_named_restores {α} (frame : Frame) (m : M α) (s : St) :
       · simp at h1
       · simp at h1 hr; rw [← hr.2, ← h1.2]
 
+theorem findFunc_mem (fs : List FuncDef) (n : String) (d : FuncDef) (h : findFunc fs n = some d) : d ∈ fs := by
+  unfold findFunc at h
+  exact List.mem_of_find?_eq_some h
+
+/-- A call of a NAMED user function, whatever it does and however it ends, hands the caller's stack back
+exactly as it was. -/
+theorem callFn_named_restores (p : Prog) (fuel : Nat) (name : String) (args : List DV) (s : St)
+    (hname : name.startsWith "#" = false) (hfs : ∀ d ∈ p.funcs, d.isLit = false) :
+    (runM (callFn p fuel name args) s).2.stack = s.stack := by
+  cases fuel with
+  | zero => unfold callFn; rfl
+  | succ fuel =>
+    have hr := inCall_named_restores (α := DV)
+    cases hrun : runM (callFn p (fuel + 1) name args) s with
+    | mk r s' =>
+      unfold callFn at hrun
+      simp only [hname, Bool.false_eq_true, if_false] at hrun
+      cases hd : findFunc p.funcs name with
+      | none => simp [hd] at hrun; simp [← hrun.2]
+      | some d =>
+        have hlit := hfs d (findFunc_mem _ _ _ hd)
+        simp only [hd, hlit] at hrun
+        repeat' (first
+          | (simp only [runM_bind, runM_pure, runM_failM] at hrun)
+          | (split at hrun))
+        all_goals (try simp at hrun)
+        all_goals (try grind)
+
 end DSL
 end Miller
